@@ -434,4 +434,43 @@ example : processText motdCfg (ofString "${motd.${nolang:fr}:Welcome, stranger},
 example : processText motdCfg (ofString "#{max(${low:1},${quota.${tier}:100})},validate=min=1") =
     some (ofString "#{max(${low:1},${quota.${tier}:100})}", .value (ofString "#{max(1,500)}")) := by decide +kernel
 
+/-! ### as written (eighth round): the text a tag resolves to, written as a tag, is handed on unchanged
+
+  "The tag is then processed as if it had been written with the replacement text": the placeholder stage writes TagVal, every
+  later stage (expression, value, validate) reads TagVal and the arguments only.  So it is enough that the tag `T'` written
+  with the text `T` resolves to leaves the placeholder stage with that very text - under EVERY configuration, because it
+  holds no placeholder any more.  (What the later stages read is the regenerated fact of `C18_code_expr_reads_quote_result`
+  and, for whole Apps, the oracle `placeholder-as-written`: two real starts, `T` against `T'`.) -/
+
+/-- If `T` resolves to the text `r`, the tag written `r` resolves to `r` (whatever the configuration is then): both
+    properties carry the same TagVal into the later stages. -/
+theorem C16_as_written (cfg cfg' : Cfg) (s r : Bytes) (h : process cfg s = .value r) : process cfg' r = .value r := by
+  have hn := C16_no_placeholder_left cfg s r h
+  unfold process
+  rw [hn]
+
+/-- … also from the tag TEXT with the same arguments behind: when the value part `v` resolves to `r` and `r` is
+    bracket-balanced with its commas inside brackets (otherwise NO written tag has the value part `r`), the text
+    `r,args` reaches the later stages with TagStr = TagVal = `r` and the arguments of `v,args`. -/
+theorem C16_as_written_text (cfg : Cfg) (v r : Bytes) (as : List (Bytes × List Bytes))
+    (hv : Ioc.Tag.WFpre Ioc.Tag.cComma Ioc.Tag.isLB Ioc.Tag.isRB v 0 = true)
+    (hr : Ioc.Tag.WFpre Ioc.Tag.cComma Ioc.Tag.isLB Ioc.Tag.isRB r 0 = true) (has : ∀ a ∈ as, Ioc.Tag.WFArg a)
+    (h : process cfg v = .value r) :
+    processText cfg (Ioc.Tag.render v as) = some (v, .value r) ∧
+    processText cfg (Ioc.Tag.render r as) = some (r, .value r) := by
+  rw [C16_arguments_cut_outside cfg v as hv has, C16_arguments_cut_outside cfg r as hr has, h,
+    C16_as_written cfg cfg v r h]
+  exact ⟨rfl, rfl⟩
+
+def cacheCfg : Cfg := [(ofString "region", .str (ofString "eu")),
+  (ofString "cache", .map [(ofString "ttl", .str (ofString "#{60*60}")), (ofString "label", .str (ofString "#{'cache-'+'${region}'}"))])]
+
+-- the expression reaches the tag only through the configured value: nothing in the written tag says "expression"
+example : process cacheCfg (ofString "${cache.ttl}") = .value (ofString "#{60*60}") := by decide +kernel
+example : process cacheCfg (ofString "${cache.label}") = .value (ofString "#{'cache-'+'eu'}") := by decide +kernel
+example : process cacheCfg (ofString "#{60*60}") = .value (ofString "#{60*60}") := by decide +kernel
+example : Ioc.Tag.WFpre Ioc.Tag.cComma Ioc.Tag.isLB Ioc.Tag.isRB (ofString "#{'cache-'+'eu'}") 0 = true := by decide
+example : processText cacheCfg (ofString "${cache.ttl},validate=min=1") = some (ofString "${cache.ttl}", .value (ofString "#{60*60}")) := by
+  decide +kernel
+
 end Ioc.C16
